@@ -62,4 +62,55 @@ def srunRev (c : Cfg) : List SOp → Storage × List (Nat × MetricData)
 /-- run a history given in chronological order -/
 def srun (c : Cfg) (h : List SOp) : Storage × List (Nat × MetricData) := srunRev c h.reverse
 
+/-! ### record / collect races: the step system
+
+`Collect` is two steps: *swap* (under `attribute_hashmap_lock_`) and *build* (`buildMetrics`, under the temporal
+storage's `lock_`).  `Record*` takes `attribute_hashmap_lock_` too, so an `Add` is atomic with respect to *swap*.
+A collector thread `tid` performs *swap* and later *build*; between the two any other step may happen: recordings,
+and (when `SyncMetricStorage::Collect` is called directly rather than through `Meter::Collect`, which serialises
+collections with `storage_lock_`) the steps of other collector threads, in any order. -/
+
+/-- the delta map a collector thread holds between its swap and its build -/
+structure Flight where
+  tid : Nat
+  r : Nat
+  ts : Nat
+  δ : DMap
+
+inductive Step
+  | add (a : Nat) (v : Int)
+  | swap (tid r ts : Nat)
+  | build (tid : Nat)
+
+structure Conc where
+  st : Storage
+  inflight : List Flight
+  outs : List (Nat × MetricData)
+
+def Conc.init : Conc := { st := Storage.init, inflight := [], outs := [] }
+
+/-- remove and return thread `tid`'s flight -/
+def takeFlight (tid : Nat) : List Flight → Option (Flight × List Flight)
+  | [] => none
+  | f :: t => if f.tid = tid then some (f, t) else (takeFlight tid t).map fun p => (p.1, f :: p.2)
+
+def cstep (c : Cfg) (s : Conc) : Step → Conc
+  | .add a v => { s with st := record s.st a v }
+  | .swap tid r ts =>
+    -- a thread that is already between swap and build cannot swap again; an unknown collector does not exist
+    if r < c.n ∧ (takeFlight tid s.inflight).isNone then
+      { s with st := (swap s.st).1, inflight := ⟨tid, r, ts, (swap s.st).2⟩ :: s.inflight }
+    else s
+  | .build tid =>
+    match takeFlight tid s.inflight with
+    | none => s
+    | some (f, rest) =>
+      let b := build c s.st f.r f.ts f.δ
+      { st := b.1, inflight := rest, outs := match b.2 with | some md => (f.r, md) :: s.outs | none => s.outs }
+
+/-- run a schedule given most recent step first -/
+def crunRev (c : Cfg) : List Step → Conc
+  | [] => Conc.init
+  | st :: older => cstep c (crunRev c older) st
+
 end Otel.C06
